@@ -31,6 +31,33 @@ def check(ctx: Ctx, ev: Evidence) -> list[Finding]:
     ev.rule("C14-R4", "at most one fault callback per declared condition and public call", 5)
     h0 = ctx.harness("dest")
     keys = [k.name for k, _ in h0.default_table.items]
+    # ---- R6: the table object belongs to its instance ("the handler code configured in the LOCAL entity's table decides")
+    ev.rule("C14-R6", "every fault-handler table instance owns its dict: the constructor stores a fresh object (literal, dict(...), copy), never a module- or class-level one", 1)
+    fh_ci = prog.classes.get("cfdppy.mib.DefaultFaultHandlerBase")
+    init = fh_ci.methods.get("__init__") if fh_ci else None
+    if init is None:
+        raise AnalysisError("DefaultFaultHandlerBase.__init__ not found")
+    mi_ = prog.modules[fh_ci.module]
+    n_tab = 0
+    for n in ast.walk(init.node):
+        if isinstance(n, (ast.Assign, ast.AnnAssign)) and getattr(n, "value", None) is not None:
+            tg = n.targets if isinstance(n, ast.Assign) else [n.target]
+            if not any(isinstance(t, ast.Attribute) and ast.unparse(t.value) == "self" for t in tg):
+                continue
+            v = n.value
+            shared = None
+            if isinstance(v, ast.Name) and (v.id in mi_.globals_ or v.id in mi_.imports):
+                shared = f"the module-level object `{v.id}`"
+            elif isinstance(v, ast.Attribute) and ast.unparse(v.value) in (fh_ci.name, "type(self)", "self.__class__", "cls"):
+                shared = f"the class-level object `{ast.unparse(v)}`"
+            if isinstance(v, (ast.Dict, ast.Name, ast.Attribute, ast.Call)):
+                n_tab += 1
+                k6 = f"{fh_ci.qualname}.__init__ | {norm(n)[:60]}"
+                ev.inst("C14-R6", k6 + (" is a fresh object" if not shared else f" aliases {shared}"), "ok" if not shared else "violation", loc(init, n))
+                if shared:
+                    out.append(Finding("C14-R6", f"{fh_ci.qualname}.__init__ | table aliases a shared object", f"`{norm(n)[:80]}` binds {shared}: set_handler on one entity's table reconfigures the table of every other entity in the process", loc(init, n)))
+    if n_tab == 0:
+        raise AnalysisError("no attribute initialisation found in DefaultFaultHandlerBase.__init__")
     # ---- R1
     n_sites = 0
     for fi in iter_funcs(prog, ["cfdppy.handler.source", "cfdppy.handler.dest"]):
